@@ -108,11 +108,19 @@ def endsOnRecInherit : Nat → Expr → List Step → Bool
 
 def recInheritKey (prog : Expr) (path : List Step) : Bool := endsOnRecInherit (path.length + 1) prog path
 
-/-- the same, for paths with `.value` steps: where the spec's own traversal ends -/
+/-- the same, for paths with `.value` steps: the spec's own traversal takes `.value` (in the middle
+    or at the end) of a name that a `rec` set inherits -/
+def recInheritWalk (fuel : Nat) (prog : Expr) : SCur → List Step → Bool
+  | .atInh _ _ _ _ true, [] => true
+  | .atInh _ _ _ _ true, .deref :: _ => true
+  | _, [] => false
+  | cur, s :: rest =>
+    match specStep fuel prog cur s with
+    | .ok cur1 => recInheritWalk fuel prog cur1 rest
+    | _ => false
+
 def recInheritKeySem (fuel : Nat) (prog : Expr) (path : List Step) : Bool :=
-  match specSteps fuel prog .root path with
-  | .ok (.atInh _ _ _ _ true) => true
-  | _ => false
+  recInheritWalk fuel prog .root path
 
 /-- The root-cause classes that hold of an input, most specific first. -/
 def causes (fuel : Nat) (prog : Expr) (path : List Step) : List String :=
@@ -127,8 +135,33 @@ def causes (fuel : Nat) (prog : Expr) (path : List Step) : List String :=
   (if hasQuotedName prog then ["quoted-name"] else []) ++
   (if hasDeref path then ["value-step"] else [])
 
+/-- a name written without quotes -/
+def bareName (n : Text) : Bool := n.all (fun c => c != '"')
+
+mutual
+/-- the expressions of the fragment of `C10.resolve_partial`: literals, references, `rec` and plain
+    sets of bindings and `inherit` clauses, non-empty let layers around anything but a reference -/
+def fragE : Expr → Bool
+  | .lit _ => true
+  | .ref _ _ => true
+  | .set _ _ items => fragItems items
+  | .letE items body => !items.isEmpty && fragItems items && !isRefCore body && fragE body
+  | _ => false
+def fragItems : List Item → Bool
+  | [] => true
+  | .bind _ n v :: rest => bareName n && fragE v && fragItems rest
+  | .inh _ _ :: rest => fragItems rest
+  | .inhFrom .. :: _ => false
+end
+
+def keysOnly (path : List Step) : Bool := path.all (fun s => s != .deref)
+
 /-- The fragment of `C10.resolve_partial`: let layers, `rec` and plain sets, `inherit`, references
-    and literals, nested to any depth, walked by keys. -/
-def InFragment (prog : Expr) (path : List Step) : Bool := (causes 0 prog path).isEmpty
+    and literals, nested to any depth and with any shadowing, walked by keys; the two exclusions
+    inside it are the two findings that live there (`cex_inherit_in_rec_by_key`,
+    `cex_document_rec_duplicates_lets`). On every generated input the harness checks that this
+    predicate holds exactly when no root-cause class does. -/
+def InFragment (prog : Expr) (path : List Step) : Bool :=
+  fragE prog && keysOnly path && !recInheritKey prog path && !letOnRecTop prog
 
 end Nima.Scope
